@@ -3923,7 +3923,18 @@ def _find_spec(ev, name, package=None):
 
 
 def _binom(ev, n, k):
+    # scipy.special.binom is a ufunc: it broadcasts over arrays of (concrete, integral) arguments
+    if isinstance(n, Arr) or isinstance(k, Arr):
+        def rec(a, b):
+            if isinstance(a, list) or isinstance(b, list):
+                la = a if isinstance(a, list) else [a] * len(b)
+                lb = b if isinstance(b, list) else [b] * len(a)
+                return [rec(x, y) for x, y in zip(la, lb)]
+            return _binom(ev, a, b)
+        return Arr(rec(n.data if isinstance(n, Arr) else n, k.data if isinstance(k, Arr) else k))
     n, k = num_norm(n), num_norm(k)
+    if isinstance(n, Rat) or isinstance(k, Rat):
+        raise Undecided("binomial coefficient of symbolic arguments")
     return math.comb(int(n), int(k))
 
 
@@ -4177,6 +4188,7 @@ _EXT_CALLS = {
     "numpy.unique": _np_unique,
     "numpy.atleast_1d": lambda ev, x: _as_arr(ev, x) if _as_arr(ev, x) is not None else Arr([x]),
     "numpy.square": lambda ev, x: ev.binop(ast.Mult(), x, x),
+    "numpy.fromiter": lambda ev, it, dtype=None, count=-1, **kw: Arr([v for v in ev.iterate(it)][: (None if count is None or count < 0 else count)]),
     "numpy.log10": lambda ev, x: ev.binop(ast.Div(), _np_elementwise(_f_log)(ev, x), num_norm(A.fn_log(A.Rat.const(10)))),
     "numpy.log2": lambda ev, x: ev.binop(ast.Div(), _np_elementwise(_f_log)(ev, x), num_norm(A.fn_log(A.Rat.const(2)))),
     "numpy.fabs": _np_elementwise(_b_abs),
